@@ -858,6 +858,28 @@ def build_input(form, D, order):
     return DistanceMatrix({(a, b): D[(a, b)] for a in order for b in order if a != b})
 
 
+def _snapshot(inp):
+    if isinstance(inp, dict):
+        return ("dict", dict(inp))
+    import numpy
+
+    return ("dm", tuple(inp.names), numpy.array(inp.array, dtype=float).copy())
+
+
+def input_unchanged(res, algo, inp, before, detail):
+    """the caller's distance matrix must still hold the same distances after a tree was built from it (so it can
+    be given to another estimator)"""
+    import numpy
+
+    res.evals += 1
+    res.count("input-unchanged-checked")
+    after = _snapshot(inp)
+    same = after[0] == before[0] and (after[1] == before[1]) and (after[0] == "dict" or (after[2].shape == before[2].shape and numpy.array_equal(after[2], before[2])))
+    if not same:
+        res.witness(f"C15/{algo}/input-distances-modified", **detail)
+    return same
+
+
 def compare_unrooted(res, algo, got_tree, model, detail):
     """split set and branch lengths of an unrooted result against the generating tree"""
     all_tips = frozenset(tips_of(model))
@@ -936,6 +958,7 @@ def decide_nj(res, model, order, form, algo, params=None, sigparts=None):
     res.count("form:" + form)
     try:
         inp = build_input(form, D, order)
+        before = _snapshot(inp)
         if algo == "nj":
             tree = nj(inp, show_progress=False)
         elif algo == "gnj":
@@ -956,6 +979,8 @@ def decide_nj(res, model, order, form, algo, params=None, sigparts=None):
         if exc_mechanism("", e).endswith("@harness"):
             raise
         res.witness(exc_mechanism(f"C15/{algo}", e), error=repr(e)[:300], **detail)
+        return
+    if not input_unchanged(res, algo, inp, before, detail):
         return
     if algo == "gnj":
         # the collection is sorted by tree length; the generating tree is the minimum-length explanation of an
@@ -992,11 +1017,14 @@ def decide_upgma(res, model, order, form, sigparts=None):
     res.count("form:" + form)
     try:
         inp = build_input(form, D, order)
+        before = _snapshot(inp)
         tree = upgma(inp)
     except Exception as e:  # noqa: BLE001
         if exc_mechanism("", e).endswith("@harness"):
             raise
         res.witness(exc_mechanism("C15/upgma", e), error=repr(e)[:300], **detail)
+        return
+    if not input_unchanged(res, "upgma", inp, before, detail):
         return
     ok = compare_rooted(res, "upgma", tree, model, detail)
     if ok and sigparts and len(order) >= 5:
